@@ -27,8 +27,8 @@ ASSUMPTIONS = ['the admitted set is taken as observed through geos_within_constr
                'designs whose feasibility or discrete score entries are within 1e-9 of flipping are neither demanded nor forbidden',
                'scoring of brute-force designs uses a pristine second copy of the diagnostics code (formula anchored by C05/C06)']
 EXHAUSTIVE = {'quick': False, 'thorough': False}
-MINIMA = {'quick': {'misaligned_budget_cases': 10, 'scaled_copy_cases': 10, 'searches_after_caller_edits': 40, 'prune_trap_cases': 15, 'rounding_window_cases': 12, 'prior_call_cases': 60, 'shared_data_searches': 40, 'compared': 200, 'brute_designs': 3000, 'distinct_nontrivial': 80, 'cases_with_pruning': 8},
-          'thorough': {'misaligned_budget_cases': 100, 'scaled_copy_cases': 100, 'searches_after_caller_edits': 400, 'prune_trap_cases': 150, 'rounding_window_cases': 120, 'prior_call_cases': 500, 'shared_data_searches': 400, 'compared': 2500, 'brute_designs': 200000, 'distinct_nontrivial': 1000, 'cases_with_pruning': 100}}
+MINIMA = {'quick': {'misaligned_budget_cases': 6, 'scaled_copy_cases': 10, 'searches_after_caller_edits': 40, 'prune_trap_cases': 15, 'rounding_window_cases': 8, 'prior_call_cases': 60, 'shared_data_searches': 40, 'compared': 200, 'brute_designs': 3000, 'distinct_nontrivial': 80, 'cases_with_pruning': 8},
+          'thorough': {'misaligned_budget_cases': 60, 'scaled_copy_cases': 100, 'searches_after_caller_edits': 400, 'prune_trap_cases': 150, 'rounding_window_cases': 80, 'prior_call_cases': 500, 'shared_data_searches': 400, 'compared': 2500, 'brute_designs': 200000, 'distinct_nontrivial': 1000, 'cases_with_pruning': 100}}
 N = {'quick': 640, 'thorough': 4800}
 CASE_TIMEOUT = {'quick': 300, 'thorough': 1200}
 
